@@ -193,7 +193,7 @@ pub fn check_plan(s: &Script, reference: &[Snapshot], plan: Plan) -> Result<bool
                     if let Some((part, d)) = reference[j].canon().diff(&snap.canon()) {
                         return Err(Fail::new(
                             format!("{P} silent-loss script={} kind={:?} call={call}", s.id, plan.kind),
-                            format!("under {plan:?} every call including {call} returned Ok, but reopening the medium shows a different {part}: {}", &d[..d.len().min(300)]),
+                            format!("under {plan:?} every call including {call} returned Ok, but reopening the medium shows a different {part}: {}", crate::engine::clip(&d, 300)),
                         ));
                     }
                 }
@@ -397,7 +397,7 @@ pub fn check_generated(g: &GenFault) -> Result<bool, Fail> {
                 Err(e) => return Err(Fail::new(format!("{P} silent-loss script=generated kind={:?}", g.plan.kind), format!("under {:?} every call up to save point {j} returned Ok, but the medium is unreadable: {e}", g.plan))),
                 Ok(snap) => {
                     if let Some((part, d)) = reference.canon().diff(&snap.canon()) {
-                        return Err(Fail::new(format!("{P} silent-loss script=generated kind={:?}", g.plan.kind), format!("under {:?} every call up to save point {j} returned Ok, but reopening shows a different {part}: {}", g.plan, &d[..d.len().min(300)])));
+                        return Err(Fail::new(format!("{P} silent-loss script=generated kind={:?}", g.plan.kind), format!("under {:?} every call up to save point {j} returned Ok, but reopening shows a different {part}: {}", g.plan, crate::engine::clip(&d, 300))));
                     }
                 }
             }
